@@ -27,7 +27,8 @@ TestTypes == <<WInt, WFloat, IF_, WStr, WVoid, WBool, WAny,
                StA, StAB, WStruct(<<>>), WFn(<<>>, WInt), WFn(<<WInt>>, WInt), WMut(WInt), WMut(IF_),
                WMulti(<<WInt, WArr(WInt)>>), WTup(<<WArr(WInt), WInt>>),
                \* a struct type next to another member / inside a tuple: matched by WIDER struct values
-               WMulti(<<StA, WInt>>), WTup(<<StA, WInt>>)>>
+               WMulti(<<StA, WInt>>), WTup(<<StA, WInt>>),
+               WArr(WTup(<<WInt, WInt>>))>>
 
 \* an operation on the bound name y that only a value of the test type supports (parallel to TestTypes): the
 \* selected branch USES the binder, so that a checker / folder that binds y to a value of another type goes wrong
@@ -39,7 +40,8 @@ TestUse == <<Bin("+", Y, I(1)), Bin("+", Y, F(1)), Y, Bin("+", Y, S(<<115>>)), Y
              Bin("+", Field(Y, "a"), I(1)), Bin("+", Field(Y, "a"), Field(Y, "b")), Y, Bin("+", CallE(Y, <<>>), I(1)), Bin("+", CallE(Y, <<I(1)>>), I(1)),
              Bin("+", Deref(Y), I(1)), Deref(Y),
              Y, Bin("+", TupAt(Y, 0), ArrE(<<TupAt(Y, 1)>>)),
-             Y, Bin("+", Field(TupAt(Y, 0), "a"), TupAt(Y, 1))>>
+             Y, Bin("+", Field(TupAt(Y, 0), "a"), TupAt(Y, 1)),
+             Y>>
 ASSUME Len(TestUse) = Len(TestTypes)
 UseOf(ty) == TestUse[CHOOSE i \in 1..Len(TestTypes) : TestTypes[i] = ty]
 
@@ -57,6 +59,7 @@ Vals == <<I(1), I(2), F(5), S(<<115>>), S(<<116>>), Unit, B(TRUE),
           StructE(<< <<"a", I(1)>> >>), StructE(<< <<"a", I(1)>>, <<"b", I(2)>> >>), StructE(<<>>), StructE(<< <<"a", F(5)>> >>),
           FnE(<<>>, WInt, <<Ret(I(1))>>), FnE(<<P("q", WInt)>>, WInt, <<Ret(V("q"))>>), FnE(<<P("q", WAny)>>, WInt, <<Ret(I(1))>>),
           MutE(WInt, I(1)), MutE(IF_, I(1)),
+          ArrE(<<ArrE(<<I(1)>>), ArrE(<<F(5)>>)>>), ArrE(<<ArrE(<<>>), ArrE(<<I(1)>>)>>), ArrE(<<TupE(<<I(2), I(3)>>), TupE(<<F(3), I(3)>>)>>),
           Hide(WMulti(<<StAB, WInt>>), StructE(<< <<"a", I(1)>>, <<"b", I(2)>> >>)),
           TupE(<<StructE(<< <<"a", I(1)>>, <<"b", I(2)>> >>), I(1)>>),
           Hide(WMulti(<<WTup(<<StAB, WInt>>), WInt>>), TupE(<<StructE(<< <<"a", I(1)>>, <<"b", I(2)>> >>), I(1)>>))>>
@@ -71,6 +74,7 @@ ValTy == <<WInt, WInt, WFloat, WStr, WStr, WVoid, WBool,
            WTup(<<WArr(WInt), WInt>>), WTup(<<WArr(WNever), WInt>>),
            StA, StAB, WStruct(<<>>), WStruct(<< <<"a", WFloat>> >>),
            WFn(<<>>, WInt), WFn(<<WInt>>, WInt), WFn(<<WAny>>, WInt), WMut(WInt), WMut(IF_),
+           WArr(WMulti(<<WArr(WInt), WArr(WFloat)>>)), WArr(WMulti(<<WArr(WNever), WArr(WInt)>>)), WArr(WMulti(<<WTup(<<WInt, WInt>>), WTup(<<WFloat, WInt>>)>>)),
            WMulti(<<StAB, WInt>>), WTup(<<StAB, WInt>>), WMulti(<<WTup(<<StAB, WInt>>), WInt>>)>>
 ASSUME Len(ValTy) = NV
 
@@ -164,6 +168,15 @@ ExtraCases == <<
   XC(<<Set("tp", TupE(<<At(ArrE(<<I(1), F(5)>>), I(0)), I(2)>>)), Set("r1", IfSet("q", WTup(<<WInt, WInt>>), V("tp"), I(1), I(0))),
        Set("st", StructE(<< <<"a", At(ArrE(<<I(1), F(5)>>), I(0))>> >>)), Set("r2", IfSet("q", StA, V("st"), I(1), I(0))),
        TupE(<<V("r1"), V("r2")>>)>>, T2V(1, 1)),
+  \* value arms: every listed value is compared, in order, until one equals the scrutinee — also when the first is a literal,
+  \* and also when a listed value has a static type wider than (or only overlapping) the scrutinee's
+  XC(<<FnDecl("m", <<P("v", WInt)>>, WInt, <<Ret(Match(V("v"), <<ArmVal(<<I(1), I(2)>>, I(10)), ArmVal(<<I(3), H(4), I(5)>>, I(20)), ArmOther(I(30))>>))>>),
+       TupE(<<CallE(V("m"), <<H(2)>>), CallE(V("m"), <<H(5)>>)>>)>>, T2V(10, 20)),
+  XC(<<Set("r1", Match(I(2), <<ArmVal(<<I(1), I(2)>>, I(10)), ArmOther(I(30))>>)),
+       Set("r2", Match(H(4), <<ArmVal(<<I(1), I(2)>>, I(10)), ArmVal(<<I(3), I(4)>>, I(20)), ArmOther(I(30))>>)), TupE(<<V("r1"), V("r2")>>)>>, T2V(10, 20)),
+  XC(<<Set("w", Hide(WMulti(<<WInt, WVoid>>), I(4))), Set("a", Hide(WAny, I(6))),
+       FnDecl("m", <<P("v", WInt)>>, WInt, <<Ret(Match(V("v"), <<ArmVal(<<V("w")>>, I(10)), ArmVal(<<V("a")>>, I(20)), ArmTy("n", WInt, I(30))>>))>>),
+       Set("r1", CallE(V("m"), <<H(4)>>)), Set("r2", CallE(V("m"), <<H(6)>>)), TupE(<<V("r1"), V("r2")>>)>>, T2V(10, 20)),
   \* a block / branch / arm whose last statement is `()' evaluates to (), whatever ran before
   XC(<<Set("c", MutE(WInt, I(0))), Set("b1", Block(<<Asg("+=", V("c"), I(5)), Unit>>)),
        Set("r1", IfSet("q", WVoid, V("b1"), I(1), I(0))),
